@@ -94,15 +94,22 @@ Definition len_test (q : cq) (k : nat) (r : rv) : option bool :=
 Definition pattern_test (p : pat) (r : rv) : option bool :=
   match r with RRaw (VStr s) => Some (pat_test p s) | _ => None end.
 
+(* OPA's total order: within a type, numbers by value, strings lexicographically (bytes), false < true,
+   link objects by their single "@id" value; across types by rank *)
+Definition same_rank_lt (a b : rv) : bool :=
+  match a, b with
+  | RRaw (VInt x), RRaw (VInt y) => x <? y
+  | RRaw (VStr x), RRaw (VStr y) => String.ltb x y
+  | RRaw (VBool x), RRaw (VBool y) => negb x && y
+  | RRaw (VRef x), RRaw (VRef y) => String.ltb x y
+  | _, _ => false
+  end.
 Definition cmp_test (o : cop) (a b : rv) : bool :=
   match o with
   | PEq => rv_eqb a b
   | PNe => negb (rv_eqb a b)
-  | PLt | PLe =>
-    match a, b with
-    | RRaw (VInt x), RRaw (VInt y) => match o with PLt => x <? y | _ => x <=? y end
-    | _, _ => if rank a =? rank b then match o with PLe => rv_eqb a b | _ => false end else rank a <? rank b
-    end
+  | PLt => if rank a =? rank b then same_rank_lt a b else rank a <? rank b
+  | PLe => if rank a =? rank b then same_rank_lt a b || rv_eqb a b else rank a <? rank b
   end.
 
 Definition strs_of (vals : list rv) : list string := map rv_as_string vals.
@@ -120,10 +127,18 @@ Definition quantified (test : rv -> option bool) (pol : bool) (vs : list rv) : b
                     | None => pol            (* undefined: `not t` holds, `t` does not *)
                     end) vs.
 
+(* same, for a test whose built-in call is nested inside a comparison (`not count(v) >= k`): the engine
+   hoists the call out of the negation, so an undefined call makes BOTH snippets undefined *)
+Definition quantified_hoisted (test : rv -> option bool) (pol : bool) (vs : list rv) : bool :=
+  existsb (fun v => match test v with
+                    | Some b => if pol then negb b else b
+                    | None => false
+                    end) vs.
+
 Definition Fpos (a : atom) (n : string) : bool :=
   match a with
   | ACount q p k => negb (cq_test q (List.length (vals p n)) k)
-  | ALength q p k => quantified (len_test q k) true (vals p n)
+  | ALength q p k => quantified_hoisted (len_test q k) true (vals p n)
   | AIn p l => quantified (fun v => Some (str_mem (rv_as_string v) l)) true (vals p n)
   | AContainsAll p l => nonempty (vals p n) && negb (forallb (fun a => str_mem a (strs_of (vals p n))) l)
   | AContainsSome p l => nonempty (vals p n) && negb (existsb (fun a => str_mem a (strs_of (vals p n))) l)
@@ -136,7 +151,7 @@ Definition Fpos (a : atom) (n : string) : bool :=
 Definition Fneg (a : atom) (n : string) : bool :=
   match a with
   | ACount q p k => cq_test q (List.length (vals p n)) k
-  | ALength q p k => quantified (len_test q k) false (vals p n)
+  | ALength q p k => quantified_hoisted (len_test q k) false (vals p n)
   | AIn p l => quantified (fun v => Some (str_mem (rv_as_string v) l)) false (vals p n)
   | AContainsAll p l => nonempty (vals p n) && forallb (fun a => str_mem a (strs_of (vals p n))) l
   | AContainsSome p l => nonempty (vals p n) && existsb (fun a => str_mem a (strs_of (vals p n))) l
@@ -208,6 +223,12 @@ Fixpoint compl_ok (pol : bool) (f : form) (n : string) {struct f} : bool :=
   | FNested q p f => forallb (fun c => compl_ok true f c) (children p n)
   end.
 
+(* a validation = target class + formula; target_class: the nodes listed under input["@types"][class] *)
+Definition validation_reports (cls : string) (f : form) (n : node) : bool :=
+  has_type n cls && match model_reported (S (mu (parse f))) f (nid n) with Some b => b | None => false end.
+Definition validation_results (cls : string) (f : form) : list node :=
+  filter (fun n => match model_reported (S (mu (parse f))) f (nid n) with Some b => b | None => false end) (targets g cls).
+
 End OnGraph.
 
 (* well-formedness of the surface formula: every and / or has at least one operand
@@ -221,12 +242,5 @@ Fixpoint wf_form (f : form) : bool :=
   | FNested _ _ f => wf_form f
   end.
 
-Fixpoint form_size (f : form) : nat :=
-  match f with
-  | FAtom _ => 1
-  | FAnd l | FOr l => S (fold_right (fun x acc => form_size x + acc)%nat 0%nat l)
-  | FNot f => S (form_size f)
-  | FIf i t e => S (form_size i + form_size t + match e with Some e' => form_size e' | None => 0 end)%nat
-  | FNested _ _ f => S (form_size f)
-  end.
-Definition disp_fuel (f : form) : nat := (4 * form_size f + 4)%nat.
+(* fuel for Dnf.disp: Proofs/DnfFuel.fuel_enough shows it always suffices *)
+Definition disp_fuel (f : form) : nat := S (mu (parse f)).
